@@ -47,7 +47,8 @@ func c08WriteTable(dir string, kvs []kv) error {
 	if err := os.MkdirAll(dir, 0755); err != nil {
 		return err
 	}
-	w, err := sstables.NewSSTableStreamWriter(sstables.WriteBasePath(dir), sstables.WithKeyComparator(c08Cmp), sstables.WriteBufferSizeBytes(4096))
+	w, err := sstables.NewSSTableStreamWriter(sstables.WriteBasePath(dir), sstables.WithKeyComparator(c08Cmp), sstables.WriteBufferSizeBytes(4096),
+		sstables.IndexCompressionType(c08IdxComp), sstables.DataCompressionType(c08DataComp))
 	if err != nil {
 		return err
 	}
@@ -65,6 +66,9 @@ func c08WriteTable(dir string, kvs []kv) error {
 
 // c08Loader selects the index loader of all tables of a case ("" = default)
 var c08Loader = ""
+
+// c08IdxComp / c08DataComp: compression of the index and data files of all tables of a case
+var c08IdxComp, c08DataComp = 0, 0
 
 func c08Open(dir string) (sstables.SSTableReaderI, error) {
 	opts := []sstables.ReadOption{sstables.ReadBasePath(dir), sstables.ReadWithKeyComparator(c08Cmp)}
@@ -84,6 +88,12 @@ func runC08(c *fw.Case) {
 	c08Loader = []string{"", "disk", "skiplist", "slice"}[c.Idx%4] // cases of one child run sequentially
 	c.Obs("stacks_with_loader_"+map[string]string{"": "default"}[c08Loader]+c08Loader, 1)
 	c.HashAdd("loader", c08Loader)
+	// half of the stacks have compressed index files (an index entry can then be shorter on disk than its key)
+	c08IdxComp, c08DataComp = gen.Pick(r, 0, 0, 0, 1, 2, 3), gen.Pick(r, 0, 0, 1, 2, 3)
+	if c08IdxComp != 0 {
+		c.Obs("stacks_with_compressed_index_files", 1)
+	}
+	c.HashAdd("comp", c08IdxComp, c08DataComp)
 	// half of the stacks read through the skip-list loader (the one that takes a comparator) are ordered DESCENDING
 	c08Cmp = skiplist.BytesComparator{}
 	fold := false
@@ -126,7 +136,7 @@ func runC08(c *fw.Case) {
 		return out
 	}
 	nk := 3 + r.Intn(28)
-	universe := gen.AscendingKeys(r, nk, gen.Pick(r, 0, 1, 3, 4))
+	universe := gen.AscendingKeys(r, nk, gen.Pick(r, 0, 1, 2, 3, 4)) // family 2: long keys that compress well
 	hasEmptyKey := false
 	if r.Intn(4) == 0 {
 		if len(universe[0]) != 0 {
